@@ -196,7 +196,8 @@ Definition tol_lo (t : Q) : Q := rmul t (999 # 1000).
      5  ... and the trimmed point is within numpy's RELATIVE band of the end value (rtol finding)
      3  a removed interior point deviates from the kept chord by more than tol (y at its x)
      6  ... and it was removed together with at least one adjacent point (collinearity drift, D16)
-     4  nothing is emitted although the abscissas spread by more than 2*tol (variance early return)           *)
+     4  nothing is emitted although the abscissas spread by more than 2*tol (variance early return)
+     7  (judge_clean_err) the call raises IndexError: all abscissas within numpy's relative band of the first one   *)
 Fixpoint split_at_first (k : pt) (l acc : list pt) : option (list pt * list pt) :=
   match l with
   | [] => None
@@ -269,9 +270,12 @@ Definition judge_clean (c oe oc : list pt) : list Z :=
              else [V_AGREE]
          | Err e, _ | _, Err e => [V_MISMATCH; (- errcode e)%Z]
          end.
+(* the implementation raised.  Raising is never "keeping the curve": when the model raises the same exception class the
+   verdict is PROPERTY FALSE with code 7 (the only exception of the model is the IndexError of np.flatnonzero(mask)[0],
+   reached when every abscissa is np.isclose to the first one although the variance test passed - numpy's relative band) *)
 Definition judge_clean_err (c : list pt) (err : Z) : list Z :=
   match clean_curve tol c with
-  | Err e => if Z.eqb (errcode e) err then [V_AGREE] else [V_MISMATCH; (- errcode e)%Z]
+  | Err e => if Z.eqb (errcode e) err then [V_PROP_FALSE; 7%Z] else [V_MISMATCH; (- errcode e)%Z]
   | Ok _ => [V_MISMATCH; 0%Z]
   end.
 
@@ -326,7 +330,8 @@ Definition res_shape_eqb (a b : result (list seg)) : bool :=
      8  ... and it was removed together with at least one adjacent row (collinearity drift, D16)
      5  a segment's hot / cold / utility / vertical label disagrees with the sign of an enthalpy change inside it
      6  two adjacent segments carry the same classification (slices are not maximal)
-     9  nothing is emitted although the enthalpy column spreads by more than the display rounding                  *)
+     9  nothing is emitted although the enthalpy column spreads by more than the display rounding
+    10  (judge_curve_err) the graph assembly raises IndexError (relative band, see judge_clean_err)                   *)
 Definition disp : Q := 1 # 100.
 Definition half_disp : Q := 1 # 200.
 
@@ -474,7 +479,7 @@ Definition judge_curve (gcc util : bool) (loc : sloc) (pref : option sloc) (col 
          end.
 Definition judge_curve_err (gcc util : bool) (loc : sloc) (pref : option sloc) (col : column) (err : Z) : list Z :=
   match raw_curve tol gcc_vertical_tol gcc util loc pref col with
-  | Err e => if Z.eqb (errcode e) err then [V_AGREE] else [V_MISMATCH; (- errcode e)%Z]
+  | Err e => if Z.eqb (errcode e) err then [V_PROP_FALSE; 10%Z] else [V_MISMATCH; (- errcode e)%Z]   (* see judge_clean_err *)
   | Ok _ => [V_MISMATCH; 0%Z]
   end.
 
